@@ -23,13 +23,13 @@ _COMMON_NOTE = ("Trusted: Coq kernel + vm_compute (BigZ/primitive ints only in t
                 "inner-product argument are NOT proved. No axioms.")
 _claim("C01", "Completeness is a theorem about the model (C01_completeness, closed under the global context): for every bit length, aggregation m = 2^a <= capacity, extension degree, valid witness, nonce assignment and batch weight, the code-shaped prover's output makes the code-shaped verifier's final multiscalar product vanish (non-zero challenges, y <> 1). It composes the textbook weighted-inner-product completeness for any number of rounds, the range reduction with promises, the refinement of the code-shaped folding loop to the textbook prover, and the C02 verifier equivalence. The prover and verifier models are tied to the implementation by comparing every coordinate of every proof element and every scalar of the final check on the configuration lattice over a free-module group, plus prove-then-verify in the three modes over Ristretto and the free-module group.", _COMMON_NOTE,
        'Coq proof (completeness of the code-shaped prover against the code-shaped verifier, all sizes) + coordinate-level model/implementation correspondence over a free-module group', "5/C01")
-_claim("C02", 'C02_verifier_equiv (closed under the global context): for ARBITRARY proof elements, statement and weight, the multiscalar product the optimised verifier evaluates (s-vector recurrence, running powers, doubling construction of d and its sum, closed-form geometric sum, batched inverses) equals weight * (right-hand side - left-hand side) of the textbook Bulletproofs+ verification equation written without optimisation (Model/RangeSpec.v), for every bit length, aggregation, round count and extension degree; hence it vanishes iff the textbook verifier accepts. Every scalar the implementation feeds to its final multiscalar check is compared with the model on honest, mutated and structurally odd proofs. Knowledge soundness of the textbook protocol is trusted, not proved.', _COMMON_NOTE,
+_claim("C02", 'C02_verifier_equiv (closed under the global context): for ARBITRARY proof elements, statement and weight, the multiscalar product the optimised verifier evaluates (s-vector recurrence, running powers, doubling construction of d and its sum, closed-form geometric sum, batched inverses) equals weight * (right-hand side - left-hand side) of the textbook Bulletproofs+ verification equation written without optimisation (Model/RangeSpec.v), for every bit length, aggregation, round count and extension degree; hence it vanishes iff the textbook verifier accepts; C02_accepted_single_means_textbook_accepts carries this to the top of the executed model (a one-member chunk accepted by verify_chunk under a non-zero weight means the textbook verifier accepts the decoded pair). Every scalar the implementation feeds to its final multiscalar check is compared with the model on honest, mutated and structurally odd proofs. Knowledge soundness of the textbook protocol is trusted, not proved.', _COMMON_NOTE,
        'Coq proof (optimised verifier = textbook verifier for arbitrary proofs, all sizes) + scalar-by-scalar correspondence of the final multiscalar product', "5/C02")
 _claim("C03", "C03_batch_is_weighted_residuals (closed under the global context): for members of any mixture of aggregation factors sharing the owner's generator table (any capacity), arbitrary proofs and weights, the single multiscalar product a batch ends with equals sum_p w_p * textbook residual_p; hence it vanishes when every member satisfies the textbook equation (C03_batch_accepts_if_all_accept), and a member with a non-zero residual survives for at most one value of its weight (C08_bad_weight_unique; the random-oracle step after that is NOT a theorem). Chunking (cover, order, size), shape refusals and result alignment are theorems about the model of the repaired code. Differential runs: batch verdict vs conjunction of singleton verdicts vs model for sizes around every chunk boundary, eight kinds of invalid member at first/last/boundary/random positions, permutations, mixed capacities, per-member contexts.", _COMMON_NOTE,
        'Coq proof (batch product = weighted sum of textbook residuals; chunk cover; guards) + relational differential testing of batch vs singletons + model correspondence', "5/C03")
 _claim("C04", "The list of transcript operations of prover and verifier is a Gallina function of statement and proof. Proved: restricted to the operations that determine a challenge, the prover's list (any witness, seed or not) equals the verifier's up to the final challenge (C04_prover_verifier_same_challenge_inputs), one errs on an identity point exactly when the other does, equal logs force equal statement data and proof points (C04_log_injective), every challenge's input extends the previous one. The list is compared operation by operation with the instrumented merlin log, and for every single-datum perturbation (also inside multi-chunk and mixed-aggregation batches) the recorded challenge bytes must differ from that datum on and agree before it. Merlin as a random oracle is trusted.", _COMMON_NOTE,
        'Coq proof (same challenge inputs for prover and verifier; injectivity of the operation list) + log correspondence + pairwise challenge-dependency runs', "5/C04")
-_claim("C05", 'Every position of accepted triples is altered (scalars, points, round structure, tag, commitments, order, promises, bit length, generators, context; also inside multi-chunk and mixed-aggregation batches) and must yield an error; the model predicts the verdict and the scalars. Proved: a changed absorbed component changes the transcript log (C05_absorbed_component_changes_log); an accepted proof with r1, s1 or d1 changed is refused deterministically over linearly independent generators (C05_r1_binding, C05_s1_binding, C05_d1_binding, independence a hypothesis); shape mismatches are errors. Rejection after a changed absorbed component is probabilistic (random oracle) and stated as such.', _COMMON_NOTE,
+_claim("C05", 'Every position of accepted triples is altered (scalars, points, round structure, tag, commitments, order, promises, bit length, generators, context; also inside multi-chunk and mixed-aggregation batches) and must yield an error; the model predicts the verdict and the scalars. Proved: a changed absorbed component changes the transcript log (C05_absorbed_component_changes_log); an accepted proof with r1, s1 or d1 changed is refused deterministically over linearly independent generators (C05_r1_binding, C05_s1_binding, C05_d1_binding on the textbook equation; C05_altered_r1/s1/d1_refused on the multiscalar product the optimised verifier evaluates, under every non-zero weight; independence a hypothesis); shape mismatches are errors. Rejection after a changed absorbed component is probabilistic (random oracle) and stated as such.', _COMMON_NOTE,
        'Coq proof (deterministic rejections incl. response-scalar binding) + exhaustive position sweep with model correspondence', "5/C05")
 _claim("C06", "The prover's guard is a Gallina predicate proved equivalent to the witness relation for all u64 values and bit lengths (C06_witness_valid_iff, C06_shift_guard_64); on every generated (statement, witness) pair — exactly one violation at each position, cancelling two-position violations, boundary values, degenerate valid openings — it is evaluated inside Coq at the concrete field and compared with prove Ok/Err (chk_guard); every Ok is verified (and is accepted by C01_completeness on the model); valid cases are compared with the prover model coordinate by coordinate.", _COMMON_NOTE,
        'Coq proof (guard = witness relation) + guard model evaluated against prove Ok/Err on single-violation witnesses', "5/C06")
@@ -37,11 +37,11 @@ _claim("C07", 'Promise handling (a_L offset, transcript absorption with None = 0
        'Coq proof (promise enters only as a commitment shift; None = 0; guard) + differential promise sweeps with model correspondence', "5/C07")
 _claim("C08", 'Weight derivation modelled as transcript operations (all of r1, s1, d1 absorbed; weights drawn after every proof of the chunk; one non-zero weight per proof multiplying every term). Proved: the batch product is sum_p w_p * residual_p (C03), a member with a non-zero residual survives for at most one value of its weight and two non-zero residuals cancel for one ratio only (C08_bad_weight_unique, C08_cancellation_fixes_ratio), the reject-zero loop returns the first n non-zero draws (C08_weights_nonzero). Adaptive cancellation attacks computed from observed weights must be rejected and every response scalar must change the weight ratios; log and scalars compared with the model. Unpredictability of the ratio is the random-oracle assumption.', _COMMON_NOTE,
        'Coq proof (weight-transcript structure, unique cancelling ratio, non-zero weights) + adaptive attack search + log correspondence', "5/C08")
-_claim("C09", "C09_prover_mask_recovered (closed under the global context): for one commitment, any bit length / capacity / extension degree / promise / nonces and non-zero challenges, the verifier's recovery formula applied to the responses the code-shaped prover emits, queried with the prover's own (seed-derived) nonces, returns exactly the blinding vector, every component in order; result alignment in batches and None for unseeded / verify-only are theorems too. Recovered masks are compared with the blinding factors position by position on the implementation for all bit lengths and extension degrees, batches mixing seeded/unseeded/aggregated members.", _COMMON_NOTE,
+_claim("C09", "C09_prover_mask_recovered (closed under the global context): for one commitment, any bit length / capacity / extension degree / promise / nonces and non-zero challenges, the verifier's recovery formula applied to the responses the code-shaped prover emits, queried with the prover's own (seed-derived) nonces, returns exactly the blinding vector, every component in order; result alignment inside a chunk and across every chunk boundary (C09_batch_results_aligned: an Ok result is exactly map mask_of over the whole batch) and None for unseeded / verify-only are theorems too. Recovered masks are compared with the blinding factors position by position on the implementation for all bit lengths and extension degrees, batches mixing seeded/unseeded/aggregated members.", _COMMON_NOTE,
        'Coq proof (end-to-end recovery identity on prover + verifier models) + differential runs', "5/C09")
 _claim("C10", 'Proved: the verdict and every scalar of the final check are independent of seed and verifying mode, RecoverOnly returns the masks RecoverAndVerify returns, and — end to end on the prover and verifier models — a verifier querying another seed oracle recovers r_k plus an explicit combination of nonce differences over e^2 z^2 y^(N+1) (C10_wrong_seed_end_to_end), i.e. the true mask only if that combination vanishes (probability 1/l under the oracle assumption, not a theorem). Compared on valid/invalid proofs x seeds (incl. seeds differing in one byte) x modes.', _COMMON_NOTE,
        'Coq proof (non-interference of the seed; explicit wrong-seed offset) + differential runs', "5/C10")
-_claim("C12", 'C12_prover_capacity_independent (closed under the global context): generator sets that agree on H, Gb and the first m*bits vector generators give the same proof whatever the capacities and paddings; on the verifier side the batch equation (C03) holds for any owner table at least as long as the largest member. Padding, table owner and accumulation are modelled; every (prover capacity, verifier capacity) pair and mixed-capacity batches run on the code and are compared with the model; proofs must be byte-identical across prover capacities.', _COMMON_NOTE,
+_claim("C12", 'C12_prover_capacity_independent (closed under the global context): generator sets that agree on H, Gb and the first m*bits vector generators give the same proof whatever the capacities and paddings; on the verifier side C12_verifier_capacity_independent: two owner tables that agree on the first max_mn generators give the same final product whatever lies beyond and whatever zero padding is applied. Padding, table owner and accumulation are modelled; every (prover capacity, verifier capacity) pair and mixed-capacity batches run on the code and are compared with the model; proofs must be byte-identical across prover capacities.', _COMMON_NOTE,
        'Coq proof (prover output independent of capacity; padding / prefix lemmas) + capacity-pair sweeps with model correspondence', "5/C12")
 _claim("C13", "Source map slot -> (RNG instance, draw) | seed nonce(label, j, k) in Gallina. Proved: no two slots read the same source, the seed key layout is injective and is the documented one, the assignment always has the shape completeness and recovery need (C13_assigned_nonces_well_formed), RNG-sourced nonces go through the reject-zero loop (C13_rng_nonces_nonzero). Every nonce is read off the proof's coordinates over the free-module group and compared; every transcript RNG must be finalised with fresh external bytes; a stuck external RNG must still give pairwise distinct nonces. Value-freshness is the PRF assumption.", _COMMON_NOTE,
        'Coq proof (distinct sources, key-layout injectivity, non-zero draws) + coordinate-level observation of every nonce', "5/C13")
